@@ -92,20 +92,28 @@ SPECIAL = {
     "HOME": (b"\x1b[H", BASE + 4), "END": (b"\x1b[F", BASE + 5),
     "CK": (b"\x0b", BASE + 6), "CU": (b"\x15", BASE + 7), "CA": (b"\x01", BASE + 8),
     "CE": (b"\x05", BASE + 9), "CB": (b"\x02", BASE + 10), "CF": (b"\x06", BASE + 11),
+    # second layer (key buffer): prefix keys
+    "CX": (b"\x18", BASE + 13), "CSPACE": (b"\x00", BASE + 14),
 }
+ESC = BASE + 12
 KEY_CODE = {
     Keys.ControlM: -1, Keys.ControlC: -2, Keys.CPRResponse: -3, Keys.ControlJ: -4,
     Keys.ControlH: BASE + 0, Keys.Delete: BASE + 1, Keys.Left: BASE + 2, Keys.Right: BASE + 3,
     Keys.Home: BASE + 4, Keys.End: BASE + 5, Keys.ControlK: BASE + 6, Keys.ControlU: BASE + 7,
     Keys.ControlA: BASE + 8, Keys.ControlE: BASE + 9, Keys.ControlB: BASE + 10, Keys.ControlF: BASE + 11,
+    Keys.Escape: BASE + 12, Keys.ControlX: BASE + 13, Keys.ControlAt: BASE + 14,
 }
-FIN = ("ENTER", "CJ", "CC")
+FIN = ("ENTER", "CJ", "CC", "EENTER")
 WATCHDOG_S = float(os.environ.get("VERIF_C17_WATCHDOG", "8"))
 
 
 def tok_bytes(t: str) -> bytes:
     if t.startswith("CPR:"):
         return b"\x1b[" + t[4:].encode() + b"R"
+    if t == "EENTER":                      # escape enter: two key presses, one binding
+        return b"\x1b\r"
+    if t.startswith("EX:"):                # escape + a character without binding
+        return b"\x1b" + t[3:].encode("utf-8")
     if t in SPECIAL:
         return SPECIAL[t][0]
     assert len(t) == 1, t
@@ -118,6 +126,19 @@ def tok_code(t: str) -> int:
     if t in SPECIAL:
         return SPECIAL[t][1]
     return ord(t)
+
+
+def tok_codes(t: str):
+    """key presses of one token (second layer: escape sequences of two key presses)"""
+    if t == "EENTER":
+        return [ESC, -1]
+    if t.startswith("EX:"):
+        return [ESC, ord(t[3:])]
+    return [tok_code(t)]
+
+
+def is_text_tok(t: str) -> bool:
+    return len(t) == 1
 
 
 def kp_code(kp) -> int:
@@ -420,18 +441,29 @@ async def _e2e_async(case) -> _Run:
 
 
 _LAST = [None, None]
+_HANGS = [0]          # per worker process: prompts that had to be stopped by the watchdog
+MAX_HANGS = 6
 
 
 def real_run(case) -> _Run:
     key = json.dumps(case, sort_keys=True)
     if _LAST[0] == key:
         return _LAST[1]
+    if _HANGS[0] >= MAX_HANGS:
+        # the tree under test loses accepting keys again and again: do not wait for the watchdog
+        # thousands of times, the verdict is already a violation
+        run = _Run()
+        run.results = [(-9, "TIMEOUT")]
+        run.lines = ["skipped: repeated hangs in this worker"]
+        _LAST[0], _LAST[1] = key, run
+        return run
     if case["kind"] == "step":
         run = _new_loop_run(_step_async(case))
     elif case["mode"] == "async":
         run = _new_loop_run(_e2e_async(case))
     else:
         run = _e2e_sync(case)
+    _HANGS[0] += sum(1 for kd, tx in run.results if kd == -9 and tx == "TIMEOUT")
     _LAST[0], _LAST[1] = key, run
     return run
 
